@@ -73,11 +73,23 @@ func runC08(c *Ctx) {
 			allocWriters[f] = true
 			allocWriters[rootFunc(f)] = true
 		}
+		isAllocStore := func(in ssa.Instruction) bool {
+			st, ok := in.(*ssa.Store)
+			if !ok {
+				return false
+			}
+			fa, isFA := st.Addr.(*ssa.FieldAddr)
+			return isFA && fieldOfAddr(fa).Name() == "Allocated" && strings.HasSuffix(typeKey(fa.X.Type()), "resource_share.ResourceShare")
+		}
+		reachesAllocStore := p.performs(isAllocStore, 3)
 		n := 0
 		for _, h := range p.deepFind(up, func(in ssa.Instruction) bool {
+			if in.Parent() != up {
+				return false // the step is judged where the status test is: in the session-open function itself
+			}
 			if cc, ok := in.(ssa.CallInstruction); ok {
 				cal := cc.Common().StaticCallee()
-				return cal != nil && allocWriters[cal] && cal != up
+				return cal != nil && cal != up && (allocWriters[cal] || reachesAllocStore(in))
 			}
 			if st, ok := in.(*ssa.Store); ok && in.Parent() == up {
 				fa, isFA := st.Addr.(*ssa.FieldAddr)
